@@ -46,8 +46,8 @@ CONFIG = {
     "C09": dict(level="exploration", batches=[("perturb/asan", "asan", "yaepsim", "perturb", 0, 2500, 60000),
                                                ("perturb/plain", "plain", "yaepsim", "perturb", 0, 9000, 400000),
                                                ("perturb-q1/plain", "plain", "yaepsim_q1", "perturb", 0, 3000, 100000),
-                                               ("ansic/plain", "plain", "yaepsim", "ansic", 0, 800, 12000),
-                                               ("ansic/asan", "asan", "yaepsim", "ansic", 0, 48, 1500)]),
+                                               ("ansic/plain", "plain", "yaepsim", "ansic", 0, 3000, 60000),
+                                               ("ansic/asan", "asan", "yaepsim", "ansic", 0, 96, 3000)]),
     "C19": dict(level="exploration", batches=[("cont/asan", "asan", "contsim", "cont", 0, 30000, 1500000),
                                                ("cont/plain", "plain", "contsim", "cont", 0, 60000, 6000000),
                                                ("contfail/asan", "asan", "contsim", "contfail", 0, 15000, 700000),
@@ -267,7 +267,7 @@ def run_batch(batch, pool):
     a = batch.seed0
     end = batch.seed0 + batch.runs
     first = True
-    chunk = 8 if batch.mode == "ansic" else 24 if batch.mode == "ansichist" else CHUNK
+    chunk = 16 if batch.mode == "ansic" else 24 if batch.mode == "ansichist" else CHUNK
     while a < end:
         b = min(end, a + chunk)
         futs.append(pool.submit(run_chunk, batch.exe, batch.mode, batch.focus, a, b, True))
